@@ -15,6 +15,7 @@ import (
 	"net/http/httptest"
 	"os"
 	"path/filepath"
+	"runtime"
 	"sort"
 	"strconv"
 	"strings"
@@ -220,6 +221,21 @@ func runProxy(t *testing.T, fx *fixtures, c verifCase, w *bufio.Writer) {
 			case "resume":
 				svc := str("svc")
 				runCmd(kv["c"], func() error { return router.ResumeService(svc) })
+			case "repause":
+				// resume immediately followed by pause on the service object, on one processor, so that the requests the
+				// resume wakes only run once the pause has flipped the gate again (the pause then parks at pause.gated,
+				// which the schedule arms first)
+				svc := str("svc")
+				runCmd(kv["c"], func() error {
+					service := router.serviceForName(svc)
+					if service == nil {
+						return ErrorServiceNotFound
+					}
+					old := runtime.GOMAXPROCS(1)
+					defer runtime.GOMAXPROCS(old)
+					service.Resume()
+					return service.Pause(dur("drt"), dur("failafter"))
+				})
 			case "remove":
 				svc := str("svc")
 				runCmd(kv["c"], func() error { return router.RemoveService(svc) })
@@ -241,6 +257,11 @@ func runProxy(t *testing.T, fx *fixtures, c verifCase, w *bufio.Writer) {
 				req.Header.Set("X-Request-ID", id)
 				if ck := str("cookie"); ck != "" {
 					req.Header.Set("Cookie", "kamal-rollout="+ck)
+				}
+				if kv["up"] == "1" {
+					req.Header.Set("Connection", "Upgrade, HTTP2-Settings")
+					req.Header.Set("Upgrade", "h2c")
+					req.Header.Set("HTTP2-Settings", "AAMAAABkAAQCAAAAAAIAAAAA")
 				}
 				go func() {
 					rec := httptest.NewRecorder()
@@ -316,6 +337,7 @@ func genProxy(rng *mrand.Rand, n int, tier string, w *bufio.Writer) {
 			return out
 		}
 		known := []string{}
+		lastTargets := map[string][]string{} // per service: the target names of its previous deploy
 		// requests woken together by one resume/stop would race for targets: keep at most one
 		// request waiting at a paused gate per service
 		paused := map[string]bool{}
@@ -326,6 +348,11 @@ func genProxy(rng *mrand.Rand, n int, tier string, w *bufio.Writer) {
 			// order is goroutine scheduling): shift the clock by a unique sub-microsecond amount first
 			fmt.Fprintf(w, "advance ns=%d\n", dur(1000))
 			ts := targetsOf(svc, rollout)
+			key := svc + map[bool]string{false: "/a", true: "/r"}[rollout]
+			if prev := lastTargets[key]; len(prev) > 0 && chance(rng, 20) {
+				ts = prev // an identical redeploy: the same containers again (new Target objects, shared probe scripts)
+			}
+			lastTargets[key] = ts
 			known = append(known, ts...)
 			for _, tn := range ts {
 				if chance(rng, 25) {
@@ -376,7 +403,11 @@ func genProxy(rng *mrand.Rand, n int, tier string, w *bufio.Writer) {
 				if chance(rng, 30) {
 					ck = pick(rng, []string{"alice", "bob", "1", "zzz"})
 				}
-				fmt.Fprintf(w, "req r=%d svc=%s cookie=%s hc=%s\n", rid, hexB([]byte(svc)), hexB([]byte(ck)), b2s(chance(rng, 8)))
+				up := ""
+				if chance(rng, 15) {
+					up = " up=1" // offers a protocol upgrade (e.g. `Upgrade: h2c`) that the target ignores: an ordinary request
+				}
+				fmt.Fprintf(w, "req r=%d svc=%s cookie=%s hc=%s%s\n", rid, hexB([]byte(svc)), hexB([]byte(ck)), b2s(chance(rng, 8)), up)
 			case r < 34:
 				fmt.Fprintf(w, "advance ns=%d\n", dur(pick(rng, []int64{50_000_000, 330_000_000, 1_010_000_000, 2_530_000_000})))
 			case r < 42:
@@ -401,10 +432,18 @@ func genProxy(rng *mrand.Rand, n int, tier string, w *bufio.Writer) {
 				paused[svc], heldAtGate[svc] = false, 0
 				cid++
 				fmt.Fprintf(w, "stop c=%d svc=%s drt=%d msg=%s\n", cid, hexB([]byte(svc)), dur(pick(rng, []int64{700_000_000, 1_300_000_000})), hexB([]byte(pick(rng, []string{"", "bye"}))))
-			case r < 84:
+			case r < 82:
 				paused[svc], heldAtGate[svc] = false, 0
 				cid++
 				fmt.Fprintf(w, "resume c=%d svc=%s\n", cid, hexB([]byte(svc)))
+			case r < 84:
+				if !paused[svc] {
+					continue
+				}
+				heldAtGate[svc] = 0
+				cid++
+				fmt.Fprintf(w, "arm label=pause.gated\n")
+				fmt.Fprintf(w, "repause c=%d svc=%s drt=%d failafter=%d\n", cid, hexB([]byte(svc)), dur(pick(rng, []int64{700_000_000, 1_300_000_000})), dur(pick(rng, []int64{900_000_000, 2_300_000_000})))
 			case r < 87:
 				cid++
 				fmt.Fprintf(w, "rollout-set c=%d svc=%s percent=%d allow=%s\n", cid, hexB([]byte(svc)), pick(rng, []int{0, 50, 100}), encList(pickSome(rng, []string{"alice", "zzz"})))
